@@ -166,6 +166,7 @@ class Interp:
                 if t.get('k') == 'DeclRefExpr':
                     self.addr_taken.add(t['id'])
         self._tables = {}
+        self._discovering = 0
 
     # ----------------------------------------------------------------------------------- entry
     def run(self):
@@ -641,6 +642,10 @@ class Interp:
                     and not node.get('dims'):
                 cv = st.env[node['id']].canon()
                 return cv if cv == node['name'] else '(' + cv + ')'
+            if node.get('dims') and node.get('cls') == 'local':
+                ver = st.mem.get('\0ver:' + node['name'])
+                if ver is not None:
+                    return '%s@%s' % (node['name'], ver.canon())     # contents as left by the call that last wrote the array
             return node['name']
         if k == 'MemberExpr':
             base = self.lvalue_key(c[0], st) if c else 'this'
@@ -977,6 +982,11 @@ class Interp:
         # out-parameters: &local -> havoc
         for a in node.get('args', []):
             a0 = strip_casts(a)
+            if a0.get('k') == 'DeclRefExpr' and a0.get('dims') and a0.get('cls') == 'local' and name not in PURE_LIBM:
+                # a local array handed to a callee through a pointer to non-const: its cells hold unknown values afterwards
+                pt = (a.get('T') or '').strip()
+                if pt.endswith('*') and not pt.startswith('const '):
+                    st.mem['\0ver:' + a0['name']] = Rat.const(cid)
             if a0.get('k') == 'UnaryOperator' and a0.get('op') == '&':
                 t = a0['c'][0]
                 if t.get('k') == 'DeclRefExpr' and t.get('cls') in ('local', 'param'):
@@ -1341,6 +1351,11 @@ class Interp:
             # memory written in the loop is forgotten
             for key in list(h.mem):
                 h.mem.pop(key) if any(key.startswith(p) for p in self._written_mem_prefixes(body, h)) else None
+            # cells the body stores to (found by a discovery run of one iteration) hold an unknown value at the start of
+            # an arbitrary iteration - not the value they had on entry of the loop
+            cells = self._stored_cells(node, h, lid)
+            for key in cells:
+                h.mem[key] = Rat.sym('%s@L%d' % (key, lid))
             h.events.append(Event('loop-begin', node=node, id=lid, loop=h.loopdepth))
             if cond is not None:
                 t, _ = self.branch(cond, [h])
@@ -1414,6 +1429,8 @@ class Interp:
                     sname = '%s@L%d' % (ref['name'], self.counter)
                     self.types[sname] = ref.get('dT')
                     s.env[vid] = Rat.sym(sname)
+                for key in cells:
+                    s.mem[key] = Rat.sym('%s@L%d' % (key, self.counter))
                 s.events.append(Event('loop-end', node=node, id=lid, loop=s.loopdepth))
                 if cond is not None:
                     _, f = self.branch(cond, [s])
@@ -1421,6 +1438,38 @@ class Interp:
                 else:
                     pass
         return exited, rets
+
+    def _stored_cells(self, node, h, lid):
+        """Memory cells (by key) that one iteration of the loop may store to, excluding cells addressed through this
+        loop's own counters (those are per-iteration cells).  Found by running the body once on a copy of the state."""
+        if self._discovering > 2:
+            return set()
+        self._discovering += 1
+        saved = (self.counter, self.on_subscript, self.on_deref, self.on_math, self.on_div, dict(self.fabs_args))
+        self.on_subscript = self.on_deref = self.on_math = self.on_div = None    # no obligations from the discovery run
+        cells = set()
+        try:
+            d = h.fork()
+            n0 = len(d.events)
+            cond, body = node.get('cond'), node.get('body')
+            t = self.branch(cond, [d])[0] if cond is not None else [d]
+            after = self.exec_stmt(body, t)
+            inc = node.get('inc') if node['k'] == 'ForStmt' else None
+            for s_ in after:
+                if inc is not None and s_.status in ('run', 'cont'):
+                    try:
+                        self.eval(inc, s_)
+                    except NotInClass:
+                        pass
+                for e_ in s_.events[n0:]:
+                    if e_.kind == 'store' and e_.lv and '@L' not in e_.lv and '#' not in e_.lv:
+                        cells.add(e_.lv)
+        except (NotInClass, Inconclusive):
+            cells = set()
+        finally:
+            self._discovering -= 1
+            self.counter, self.on_subscript, self.on_deref, self.on_math, self.on_div, self.fabs_args = saved
+        return cells
 
     def _loop_signature(self, node, w, st):
         """Same initialisation, same bound, same step over the same values => same iteration range."""
@@ -1438,7 +1487,17 @@ class Interp:
                     init.append((n['c'][0]['name'], self.eval(n['c'][1], st.fork()).canon()))
                 except NotInClass:
                     return None
-        return (tuple(init), show(node['cond']), show(node.get('inc')), tuple(sorted(set(outside))))
+        # memory cells read by the condition (e.g. a bound `p->n`) are part of the range: use their current values
+        cells = []
+        for n in walk(node['cond']):
+            if n.get('k') in ('MemberExpr', 'ArraySubscriptExpr') or (n.get('k') == 'UnaryOperator' and n.get('op') == '*'):
+                if any(x.get('k') == 'DeclRefExpr' and x.get('id') in w for x in walk(n)):
+                    continue
+                try:
+                    cells.append((show(n), self.eval(n, st.fork()).canon()))
+                except (NotInClass, Inconclusive):
+                    return None
+        return (tuple(init), show(node['cond']), show(node.get('inc')), tuple(sorted(set(outside))), tuple(sorted(set(cells))))
 
     def _monotone_counters(self, node, w, st):
         """Loop counters changed only by the increment expression `v++`, `++v`, `v += c`, `v--`, `v -= c`:
